@@ -54,7 +54,8 @@ fn gen(ch: &mut Ch, _thorough: bool) -> Option<Case> {
     let named = ch.flag();
     // 4 = `#[derive_ex(Deref)] #[derive_ex(DerefMut)]` stacked, 5 = the same with the crate-qualified attribute path
     // 6 = per-trait bounds that stop (`T: Clone`) next to a shared bound the instantiation need not satisfy (`T: Copy`)
-    let list = ch.pick(7);
+    // 7 = a higher-ranked predicate in the shared bound, 8 = a lifetime predicate in the shared bound
+    let list = ch.pick(9);
     // (every generated case module now sits next to sibling modules named core / std / alloc, see runner.rs)
     let core_mod = false;
     let raw = ch.flag();
@@ -74,6 +75,12 @@ fn gen(ch: &mut Ch, _thorough: bool) -> Option<Case> {
     if list == 6 && (!ROWS[row].0.contains('T') || ROWS[row].0.contains("?Sized")) {
         return None;
     }
+    if list == 7 && !ROWS[row].0.contains('T') {
+        return None;
+    }
+    if list == 8 && !ROWS[row].0.contains("'a") {
+        return None;
+    }
     let via_macro = ch.flag();
     if via_macro && (!matches!(ROWS[row].2, "u8" | "String") || raw || list > 2) {
         return None;
@@ -84,7 +91,7 @@ fn gen(ch: &mut Ch, _thorough: bool) -> Option<Case> {
 fn build(c: &Case, tier: &str) -> XCase {
     let (g, wh, fty, selfty, cfty, ctor, mut_d, chk_f, mut_f, chk_r) = ROWS[c.row];
     let f = if c.named { if c.raw { "r#type" } else { "inner" } } else { "0" };
-    let list = ["Deref, DerefMut", "Deref", "DerefMut", "Deref, DerefMut, bound(T: ::core::marker::Copy)", "Deref)] #[derive_ex(DerefMut", "Deref)] #[::derive_ex::derive_ex(DerefMut", "Deref(bound(T: ::core::clone::Clone)), DerefMut(bound(T: ::core::clone::Clone)), bound(T: ::core::marker::Copy)"][c.list];
+    let list = ["Deref, DerefMut", "Deref", "DerefMut", "Deref, DerefMut, bound(T: ::core::marker::Copy)", "Deref)] #[derive_ex(DerefMut", "Deref)] #[::derive_ex::derive_ex(DerefMut", "Deref(bound(T: ::core::clone::Clone)), DerefMut(bound(T: ::core::clone::Clone)), bound(T: ::core::marker::Copy)", "Deref, DerefMut, bound(for<'x> &'x T: ::core::marker::Copy, ..)", "Deref, DerefMut, bound('a: 'a, ..)"][c.list];
     let head = match c.entry {
         Entry::Attr if c.list == 5 => format!("#[::derive_ex::derive_ex({list})]"),
         Entry::Attr => format!("#[derive_ex({list})]"),
